@@ -1034,6 +1034,152 @@ pub(super) fn get_or_insert_recv(
     }
 }
 
+#[cfg(feature = "quinn_rs_quinn_verif")]
+impl StreamsState {
+    /// Canonical one-line rendering of the whole stream-layer state (accounting, queues and every
+    /// instantiated stream half), compared verbatim with the Lean model by the verification harness.
+    pub(in crate::connection) fn verif_view(&self) -> String {
+        use std::fmt::Write as _;
+        fn two(a: &[u64; 2]) -> String {
+            format!("{},{}", a[0], a[1])
+        }
+        fn twob(a: &[bool; 2]) -> String {
+            format!("{},{}", a[0] as u8, a[1] as u8)
+        }
+        fn ranges(v: &[(u64, u64)]) -> String {
+            let v: Vec<String> = v.iter().map(|(a, b)| format!("{a}-{b}")).collect();
+            format!("[{}]", v.join(","))
+        }
+        let mut o = String::new();
+        write!(
+            o,
+            "ds={} md={} ua={} sw={} lmd={} smd={} dr={} rw={} srw={} debt={} nx={} mx={} mr={} smr={} arc={} mcr={} fca={} nr={} nrr={} op={} ss={} sb={}",
+            self.data_sent,
+            self.max_data,
+            self.unacked_data,
+            self.send_window,
+            self.local_max_data,
+            self.sent_max_data.into_inner(),
+            self.data_recvd,
+            self.receive_window,
+            self.stream_receive_window,
+            self.receive_window_shrink_debt,
+            two(&self.next),
+            two(&self.max),
+            two(&self.max_remote),
+            two(&self.sent_max_remote),
+            two(&self.allocated_remote_count),
+            two(&self.max_concurrent_remote_count),
+            self.flow_control_adjusted as u8,
+            two(&self.next_remote),
+            two(&self.next_reported_remote),
+            twob(&self.opened),
+            self.send_streams,
+            twob(&self.streams_blocked),
+        )
+        .unwrap();
+        let cb: Vec<String> = self.connection_blocked.iter().map(|i| i.0.to_string()).collect();
+        write!(o, " cb=[{}]", cb.join(",")).unwrap();
+        let ev: Vec<String> = self
+            .events
+            .iter()
+            .map(|e| match e {
+                StreamEvent::Opened { dir } => format!("O.{}", *dir as u8),
+                StreamEvent::Readable { id } => format!("R.{}", id.0),
+                StreamEvent::Writable { id } => format!("W.{}", id.0),
+                StreamEvent::Finished { id } => format!("F.{}", id.0),
+                StreamEvent::Stopped { id, error_code } => {
+                    format!("S.{}.{}", id.0, error_code.into_inner())
+                }
+                StreamEvent::Available { dir } => format!("A.{}", *dir as u8),
+            })
+            .collect();
+        write!(o, " ev=[{}]", ev.join(",")).unwrap();
+        // pending queue in pop order: `next` first, then the heap by (priority, recency) descending
+        let mut heap: Vec<&super::PendingStream> = self.pending.streams.iter().collect();
+        heap.sort_by(|a, b| b.cmp(a));
+        let mut pq: Vec<String> = Vec::new();
+        if let Some(n) = &self.pending.next {
+            pq.push(format!("n{}/{}", n.id.0, n.priority));
+        }
+        for p in heap {
+            pq.push(format!("{}/{}/{}", p.id.0, p.priority, u64::MAX - p.recency));
+        }
+        write!(
+            o,
+            " pq=[{}] rc={} ns={} nv={}",
+            pq.join(","),
+            u64::MAX - self.pending.recency,
+            self.send.len(),
+            self.recv.len()
+        )
+        .unwrap();
+        let mut ids: Vec<StreamId> = self.send.keys().chain(self.recv.keys()).cloned().collect();
+        ids.sort();
+        ids.dedup();
+        for id in ids {
+            if let Some(Some(s)) = self.send.get(&id) {
+                let (off, ul, us, acks, rtx) = s.pending.verif_view();
+                let st = match s.state {
+                    SendState::Ready => "R",
+                    SendState::DataSent { finish_acked: false } => "D0",
+                    SendState::DataSent { finish_acked: true } => "D1",
+                    SendState::ResetSent => "X",
+                };
+                write!(
+                    o,
+                    " S{}[st={} md={} off={} ul={} us={} ak={} rt={} fp={} cb={} sr={} pr={}]",
+                    id.0,
+                    st,
+                    s.max_data,
+                    off,
+                    ul,
+                    us,
+                    ranges(&acks),
+                    ranges(&rtx),
+                    s.fin_pending as u8,
+                    s.connection_blocked as u8,
+                    s.stop_reason
+                        .map_or("-".to_string(), |c| c.into_inner().to_string()),
+                    s.priority
+                )
+                .unwrap();
+            }
+            if let Some(Some(StreamRecv::Open(r))) = self.recv.get(&id) {
+                let ((reset, size, code), sm, end, stopped) = r.verif_view();
+                let st = match (reset, size) {
+                    (false, None) => "r:-".to_string(),
+                    (false, Some(n)) => format!("r:{n}"),
+                    (true, n) => format!("x:{}:{}", n.unwrap_or(0), code),
+                };
+                let (br, ordered, chunks) = r.assembler.verif_view();
+                // union of the buffered chunks at or above the read offset, as disjoint maximal intervals
+                let mut iv: Vec<(u64, u64)> = chunks
+                    .into_iter()
+                    .map(|(a, b)| (a.max(br), b))
+                    .filter(|(a, b)| a < b)
+                    .collect();
+                iv.sort();
+                let mut merged: Vec<(u64, u64)> = Vec::new();
+                for (a, b) in iv {
+                    match merged.last_mut() {
+                        Some(l) if a <= l.1 => l.1 = l.1.max(b),
+                        _ => merged.push((a, b)),
+                    }
+                }
+                let buf = if ordered { ranges(&merged) } else { "unordered".to_string() };
+                write!(
+                    o,
+                    " R{}[st={} sm={} end={} br={} sp={} buf={}]",
+                    id.0, st, sm, end, br, stopped as u8, buf
+                )
+                .unwrap();
+            }
+        }
+        o
+    }
+}
+
 #[cfg(test)]
 mod tests {
     use super::*;
